@@ -26,7 +26,7 @@ def plan(tier):
     for cls in ['proj.Point', 'proj.PointPair', 'proj.Transformation', 'proj.Subspace']:
         I.append(inst(f"action[{cls},d=2,complex]", 'harness.c03', 'action', dict(cls=cls, d=2, complex_=True), weight=4, timeout_s=900))
     if not q:
-        I.append(inst("action[proj.Point,d=3,complex]", 'harness.c03', 'action', dict(cls='proj.Point', d=3, complex_=True), weight=60, timeout_s=2400, opts=dict(max_vars=64)))
+        I.append(inst("action[proj.Point,d=3,complex]", 'harness.c03', 'action', dict(cls='proj.Point', d=3, complex_=True), weight=60, timeout_s=1500, opts=dict(max_vars=64)))
     for hyp in (False, True):
         I.append(inst(f"representation-boundary[d=2,hyp={hyp}]", 'harness.c03', 'rep_boundary', dict(d=2, hyp=hyp, maxlen=2 if q else 3), weight=10, timeout_s=1200))
         if not q:
